@@ -15,6 +15,8 @@ pub mod zoo;
 pub mod props {
     pub mod c01;
     pub mod c08;
+    pub mod c09;
+    pub mod c12;
 }
 
 pub fn selftest() -> Result<(), String> {
